@@ -67,6 +67,11 @@ def gen_cases(tier, seed):
             # the same recorded input fetched twice in one replay, each time to be restored at a different path
             yield {'limit': lim, 'content': 'twice', 'handler': 'input', 'style': 'inst', 'passing': 'pos', 'cas': cas, 'two_dst': True}
             yield {'limit': lim, 'content': 'twice', 'handler': 'input', 'style': 'static', 'passing': 'kw', 'cas': cas, 'two_dst': True}
+    for lim in ('16B', 'default'):
+        for cname in ('binary', 'limit', 'limit+1', 'empty'):
+            if cname in contents(LIMITS[lim][2]) and not (cname.startswith('limit') and LIMITS[lim][2] >= MB):
+                for cas in cassettes.KINDS:   # recorded under the old alias, replayed through the renamed function that lists it as fallback
+                    yield {'limit': lim, 'content': cname, 'handler': 'input', 'style': 'inst', 'passing': 'pos', 'cas': cas, 'via_fallback': True}
     for lim in ('16B', 'default', 'zero'):
         for cname in ('nul', 'limit', 'limit+1', 'empty', 'binary', 'pattern1k'):
             if cname not in contents(LIMITS[lim][2]) or (cname.startswith('limit') and LIMITS[lim][2] >= MB):
@@ -107,6 +112,11 @@ def make_op(tr, limit_spec):
         @tr.intercept_input('fin', data_handler=hin_i, capture_args=[])
         def in_inst(self, file_path, tag=None):
             FileOp.bodies.append('in_inst')
+            return file_path
+
+        @tr.intercept_input('fin_renamed', data_handler=hin_i, capture_args=[], fallback_aliases=['fin'])
+        def in_renamed(self, file_path, tag=None):
+            FileOp.bodies.append('in_renamed')
             return file_path
 
         @staticmethod
@@ -202,6 +212,8 @@ def run_case(case):
                 f.write(b'Z' * (len(PLACEHOLDER if len(content) > limit_bytes else content) + (9 if case.get('stale') == 'longer' else 0)))
         dst2 = dst + '.second'
         plan2 = [call(dst)] if not twice else [call(dst), call(dst2 if case.get('two_dst') else dst)]
+        if case.get('via_fallback'):
+            plan2 = [('in_renamed',) + c[1:] for c in plan2]
         snaps = []
 
         def pf(recording):
